@@ -43,6 +43,13 @@ TEMPLATE_IDENTS = ['Byte', 'Byte2', 'Cursor', 'T', 'Visitor', 'Tag', 'Args', 'ar
                    'since_version', 'deprecated', 'presence', 'offset', 'id', 'semantic_type', 'character_encoding']
 KEYWORD_CASE = ['Class', 'INT', 'Template', 'Operator', 'Namespace', 'Default', 'Char', 'This', 'Typename', 'Auto',
                 'final', 'override', 'import', 'module']
+EXTRA_IDENTS = ['has_value', 'value_or', 'in_range', 'EOF', 'errno', 'stdin', 'assert', 'BIG_ENDIAN', 'INT8_MAX',
+                'offsetof', 'SIZE_MAX', 'EINVAL', 'alloca', 'cursor_range', 'size', 'begin', 'front', 'data', 'push_back',
+                'static_array_ref', 'dynamic_array_ref', 'resize', 'empty', 'iterator']
+# identifiers with a known effect somewhere: the quick tier samples mostly from these
+HOT_IDENTS = ['Byte', 'T', 'Cursor', 'Args', 'args', 'v', 'last', 'std', 'tag_invoke', 'Visitor', 'value', 'value_type',
+              'NULL', 'EOF', 'assert', 'size', 'begin', 'in_range', 'has_value', 'Byte2', 'Tag', 'c', 'header', 'visitor',
+              'types', 'messages', 'schema', 'detail', 'sbepp', 'size_bytes', 'num_in_group', 'total_data_size']
 BENIGN = ['a', 'b', 'A', 'B', 'x', 'X', 'f', 'g', 'price', 'Price', 'qty', 'a_b', 'b_c', 'c_d', 'a_b_c', 'b_c_d', 'd',
           'foo', 'Foo', 'bar', 'x_0', 'x_1', 'x_0_0', 'a_0', 'A_0', 'g_entry', 'g_0', 'g_0_entry', 'f_entry', 'a_entry',
           'types_0', 'messages_0', 'M', 'M_0', 'Msg', 'msg', 'E', 'S', 'C', 'one', 'two', 'n1', 'n2', 'n3', 'n4']
@@ -364,17 +371,53 @@ FLOAT_TEXTS = {
 }
 
 
-def literal_schema(rng):
+SAFE_FLOAT = {
+    'float': ['0', '1', '-1', '1.5', '.5', '5.', '1e10', '1E+5', '-2.5e-3', '16777216', '3000000000', '4294967296',
+              '9223372036854775808', '3.4028234e38', '3.4028235e38', '1.17549435e-38', 'NaN', 'INF', '-INF', '+INF', '+1.5',
+              '0.1', '08.5', '1e0', '-0.0', '123456.789e3'],
+    'double': ['0', '1', '-1', '1.5', '.5', '5.', '1e10', '1e308', '-1.7976931348623157e308', '2.2250738585072014e-308',
+               '9007199254740992', '4611686018427387904', '9223372036854775808', 'NaN', 'INF', '-INF', '+INF', '+2', '0.1',
+               '09.25', '1E5', '16777217', '123456789012345678'],
+}
+UNSAFE_FLOAT = {
+    'float': ['16777217', '33554433', '4294967295', '9223372036854775807', '08', '09', '010', '00', '0123456789'],
+    'double': ['9007199254740993', '18014398509481985', '9223372036854775807', '09', '08', '0123', '007'],
+}
+HAZARDS = ['text', 'leading-zero', 'float-text', 'header-narrow', 'header-float', 'char-literal', 'string-constant',
+           'duplicate-value', 'valueref-include', 'huge-numbers', 'package-text', 'trigraph']
+SPECIAL_TEXTS = ['say "hi"', 'trailing\\', 'line1\nline2', 'R"(x)"', '"', '\\"', 'a"b', 'x\\', 'tab\there and "quote"']
+BENIGN_TEXTS = ['plain', 'café', '日本', 'a%sb{}', '/* c */', '// x', 'percent %', "it's", 'tab\there', 'a?b', '<&>', '{0}',
+                'semi;colon', '#define X', '??=', '']
+VALUE_CHANGING_TEXTS = ['back\\slash', '\\n', '\\x41', 'nul\\0', 'a\\tb']
+TRIGRAPH_TEXTS = ['what??/', 'a??/', 'x ??/']
+
+
+def literal_schema(rng, hazard_rate=0.5):
+    """boundary values that are well-formed C++ everywhere, plus at most ONE injected hazard (returned in `feat`)"""
     feat = {}
 
     def hit(k):
         feat[k] = feat.get(k, 0) + 1
+    hazard = rng.choice(HAZARDS) if rng.random() < hazard_rate else None
+    hit('hazard.' + (hazard or 'none'))
+    used = [False]
 
-    def text(rate=0.25):
+    def inject(kind, p=0.5):
+        """True once per schema when the chosen hazard is `kind`"""
+        if hazard == kind and not used[0] and rng.random() < p:
+            used[0] = True
+            hit('injected.' + kind)
+            return True
+        return False
+
+    def text(rate=0.3):
+        if inject('text', 0.3):
+            return rng.choice(SPECIAL_TEXTS)
+        if inject('trigraph', 0.3):
+            return rng.choice(TRIGRAPH_TEXTS)
         if rng.random() < rate:
-            t = rng.choice(TEXTS)
-            hit('text.special' if t not in ('plain', '') else 'text.plain')
-            return t
+            hit('text.benign')
+            return rng.choice(BENIGN_TEXTS + (VALUE_CHANGING_TEXTS if rng.random() < 0.2 else []))
         return None
 
     def deco(d, semantic=False):
@@ -385,19 +428,32 @@ def literal_schema(rng):
             t = text(0.1)
             if t is not None:
                 d['semanticType'] = t
+        if rng.random() < 0.2:
+            d['since'] = rng.choice([0, 1, 2 ** 32, 2 ** 63, 2 ** 64 - 1])
+            if rng.random() < 0.5:
+                d['deprecated'] = rng.choice([0, 7, 2 ** 64 - 1])
         return d
 
-    hp = {n: rng.choice(S.UNSIGNED + ['uint16'] * 4 + (['int8', 'int16', 'int64', 'char'] if rng.random() < 0.15 else [])
-                        + (['float', 'double'] if rng.random() < 0.06 else []))
-          for n in ('blockLength', 'templateId', 'schemaId', 'version', 'gBlockLength', 'numInGroup', 'length',
-                    'numGroups', 'numVarDataFields')}
+    widths = {'uint8': 255, 'uint16': 65535, 'uint32': 2 ** 32 - 1, 'uint64': 2 ** 64 - 1, 'int8': 127, 'int16': 32767,
+              'int32': 2 ** 31 - 1, 'int64': 2 ** 63 - 1, 'char': 127, 'float': 2 ** 24, 'double': 2 ** 53}
+    hp = {}
+    for n in ('blockLength', 'templateId', 'schemaId', 'version', 'gBlockLength', 'numInGroup', 'length', 'numGroups',
+              'numVarDataFields'):
+        hp[n] = rng.choice(S.UNSIGNED + ['uint16'] * 3 + (['int8', 'int16', 'int32', 'int64', 'char'] if rng.random() < 0.2 else []))
+    if hazard == 'header-float':
+        which = rng.choice(['blockLength', 'gBlockLength', 'numInGroup', 'length', 'templateId', 'schemaId', 'version'])
+        hp[which] = rng.choice(['float', 'double'])
+        hit('injected.header-float.' + which)
     for k, v in hp.items():
         hit('hdr.%s.%s' % (k, v))
     hdr_elems = [{'k': 'type', 'name': n, 'prim': hp[n]} for n in ('blockLength', 'templateId', 'schemaId', 'version')]
     dim_elems = [{'k': 'type', 'name': 'blockLength', 'prim': hp['gBlockLength']},
                  {'k': 'type', 'name': 'numInGroup', 'prim': hp['numInGroup']}]
-    if rng.random() < 0.3:
+    counters = rng.random() < 0.3
+    if counters:
         hdr_elems.append({'k': 'type', 'name': 'numGroups', 'prim': hp['numGroups']})
+        hdr_elems.append({'k': 'type', 'name': 'numVarDataFields', 'prim': hp['numVarDataFields']})
+        dim_elems.append({'k': 'type', 'name': 'numGroups', 'prim': hp['numGroups']})
         dim_elems.append({'k': 'type', 'name': 'numVarDataFields', 'prim': hp['numVarDataFields']})
         hit('hdr.counters')
     types = [{'k': 'composite', 'name': 'messageHeader', 'elems': hdr_elems},
@@ -412,6 +468,17 @@ def literal_schema(rng):
         n[0] += 1
         return '%s%d' % (p, n[0])
 
+    def int_value(p):
+        v = str(rng.choice(int_boundaries(p)))
+        if inject('leading-zero', 0.4):
+            v = ('-0' + v[1:]) if v.startswith('-') else ('0' + v)
+        return v
+
+    def float_value(p):
+        if inject('float-text', 0.5):
+            return rng.choice(UNSAFE_FLOAT[p])
+        return rng.choice(SAFE_FLOAT[p])
+
     def scalar_type(nm):
         p = rng.choice(S.PRIMS)
         t = {'k': 'type', 'name': nm, 'prim': p}
@@ -420,11 +487,12 @@ def literal_schema(rng):
         attrs = ['min', 'max'] + (['null'] if t.get('presence') == 'optional' else [])
         for a in attrs:
             if rng.random() < 0.6:
-                if p in ('float', 'double'):
-                    t[a] = rng.choice(FLOAT_TEXTS[p])
-                else:
-                    t[a] = int_text(rng, rng.choice(int_boundaries(p)))
+                t[a] = float_value(p) if p in ('float', 'double') else int_value(p)
                 hit('lit.%s.%s' % (a, p))
+        if rng.random() < 0.15:
+            ce = text(1.0)
+            if ce is not None:
+                t['charEnc'] = ce
         return deco(t, True)
 
     def const_type(nm):
@@ -433,21 +501,23 @@ def literal_schema(rng):
         if p == 'char':
             c = rng.random()
             if c < 0.5:
-                t['const'] = chr(rng.randint(0x21, 0x7e))
+                pool = [chr(x) for x in range(0x21, 0x7f) if chr(x) not in "'\\"]
+                t['const'] = rng.choice(["'", '\\']) if inject('char-literal', 0.6) else rng.choice(pool)
                 hit('const.char1')
-            elif c < 0.8:
-                t['const'] = ''.join(chr(rng.randint(0x20, 0x7e)) for _ in range(rng.randint(2, 5))).strip() or 'ab'
-                t['length'] = len(t['const']) + rng.choice([0, 0, 1, 3])
-                hit('const.string')
             else:
-                t['const'] = rng.choice([x for x in TEXTS if len(x.strip()) > 1]).strip()
-                t['length'] = len(t['const'].encode('utf-8')) + rng.choice([0, 2])
-                hit('const.string_special')
+                if inject('string-constant', 0.6):
+                    t['const'] = rng.choice(['a"b', 'ab\\', '"x', 'q\\"'])
+                    t['length'] = len(t['const'])
+                else:
+                    pool = [chr(x) for x in range(0x20, 0x7f) if chr(x) not in '"\\?']
+                    t['const'] = (''.join(rng.choice(pool) for _ in range(rng.randint(2, 6))).strip() + 'zz')[:6]
+                    t['length'] = len(t['const']) + rng.choice([0, 0, 1, 3])
+                hit('const.string')
         elif p in ('float', 'double'):
-            t['const'] = rng.choice(FLOAT_TEXTS[p])
+            t['const'] = float_value(p)
             hit('const.' + p)
         else:
-            t['const'] = int_text(rng, rng.choice(int_boundaries(p)))
+            t['const'] = int_value(p)
             hit('const.' + p)
         return deco(t)
 
@@ -459,21 +529,25 @@ def literal_schema(rng):
             types.append({'k': 'type', 'name': tn, 'prim': enc})
             e['enc'] = tn
             hit('enum.named_encoding')
+        dup = inject('duplicate-value', 0.7)
         if enc == 'char':
-            chars = rng.sample([chr(c) for c in range(0x21, 0x7f)], rng.randint(1, 4))
-            if rng.random() < 0.1:
+            pool = [chr(c) for c in range(0x21, 0x7f) if chr(c) not in "'\\"]
+            chars = rng.sample(pool, rng.randint(1, 4))
+            if inject('char-literal', 0.5):
+                chars.append(rng.choice(["'", '\\']))
+            if dup:
                 chars.append(chars[0])
-                hit('enum.duplicate_value')
             for i, ch in enumerate(chars):
                 e['values'].append(deco({'name': 'v%d' % i, 'value': ch}))
             hit('enum.char')
         else:
-            vals = rng.sample(int_boundaries(enc), min(rng.randint(1, 4), len(int_boundaries(enc))))
-            if rng.random() < 0.1:
-                vals.append(vals[0])
-                hit('enum.duplicate_value')
+            vals = [str(v) for v in rng.sample(int_boundaries(enc), min(rng.randint(1, 4), len(int_boundaries(enc))))]
+            if dup:
+                vals.append(vals[0] if rng.random() < 0.5 or vals[0].startswith('-') else '00' + vals[0])
+            elif inject('leading-zero', 0.3):
+                vals[0] = ('-0' + vals[0][1:]) if vals[0].startswith('-') else ('0' + vals[0])
             for i, v in enumerate(vals):
-                e['values'].append(deco({'name': 'v%d' % i, 'value': int_text(rng, v)}))
+                e['values'].append(deco({'name': 'v%d' % i, 'value': v}))
             hit('enum.' + enc)
         return deco(e)
 
@@ -494,7 +568,7 @@ def literal_schema(rng):
         types.append(t)
         fieldable.append(nm)
     # a composite with inline constants (the only place where types_compiler emits constants itself) and offsets
-    if rng.random() < 0.6:
+    if rng.random() < 0.7:
         elems = []
         off = 0
         for _ in range(rng.randint(1, 3)):
@@ -504,7 +578,7 @@ def literal_schema(rng):
             elif c < 0.7:
                 e = scalar_type(name('m'))
                 if rng.random() < 0.3:
-                    off += rng.choice([0, 1, 2 ** 16, 2 ** 32, 2 ** 63])
+                    off += rng.choice([0, 1, 2 ** 16, 2 ** 32]) if hazard != 'huge-numbers' else 2 ** 62
                     e['offset'] = off
                     hit('offset.custom')
                 off += S.PRIM_SIZE[e['prim']]
@@ -519,9 +593,10 @@ def literal_schema(rng):
         types.append(deco({'k': 'composite', 'name': name('C'), 'elems': elems}, True))
         fieldable.append(types[-1]['name'])
 
-    big = [0, 1, 255, 256, 32767, 32768, 65535, 65536, 2 ** 31 - 1, 2 ** 31, 2 ** 32 - 1]
+    def fits(member, v):
+        return v <= widths[hp[member]]
 
-    def level(depth):
+    def level(depth, bl_member):
         lvl = {'fields': [], 'groups': [], 'datas': []}
         cur = 0
         for _ in range(rng.randint(0, 3)):
@@ -530,43 +605,63 @@ def literal_schema(rng):
             t = find(types, ty)
             const = t['k'] == 'type' and t.get('presence') == 'constant'
             if not const and rng.random() < 0.15:
-                cur += rng.choice([0, 3, 70000, 2 ** 32])
+                cur += rng.choice([0, 3, 40]) if hazard != 'huge-numbers' else rng.choice([70000, 2 ** 32, 2 ** 62])
                 f['offset'] = cur
                 hit('field.custom_offset')
             if not const:
-                cur += 8
+                cur += 1 if t['k'] in ('enum', 'set') and t.get('enc') in ('char', 'uint8', 'int8') else 16
             lvl['fields'].append(f)
-        # constant fields with valueRef (primitive type and enum type)
+        # constant fields with valueRef
         enums = [t for t in types if t['k'] == 'enum' and t['values']]
         if enums and rng.random() < 0.4:
             e = rng.choice(enums)
-            v = rng.choice(e['values'])
-            if rng.random() < 0.5:
-                lvl['fields'].append({'name': name('kf'), 'id': 7, 'type': e['name'], 'presence': 'constant',
-                                      'valueRef': '%s.%s' % (e['name'], v['name'])})
-                hit('field.const_enum')
-            else:
-                lvl['fields'].append({'name': name('kp'), 'id': 7, 'type': rng.choice(S.PRIMS), 'presence': 'constant',
-                                      'valueRef': '%s.%s' % (e['name'], v['name'])})
-                hit('field.const_prim_valueRef')
+            v = e['values'][0]
+            lvl['fields'].append({'name': name('kf'), 'id': 7, 'type': e['name'], 'presence': 'constant',
+                                  'valueRef': '%s.%s' % (e['name'], v['name'])})
+            hit('field.const_enum')
+        if enums and inject('valueref-include', 0.6):
+            e = rng.choice(enums)
+            v = e['values'][0]
+            encp = e['enc'] if e['enc'] in S.PRIM_SIZE else find(types, e['enc'])['prim']
+            lvl['fields'].append({'name': name('kp'), 'id': 7, 'type': encp, 'presence': 'constant',
+                                  'valueRef': '%s.%s' % (e['name'], v['name'])})
+            hit('field.const_prim_valueRef')
         if rng.random() < 0.3:
-            lvl['blockLength'] = max(cur, rng.choice(big + [2 ** 40]))
-            hit('level.custom_blockLength')
+            cands = [b for b in (cur, cur + 1, 255, 32767, 65535, 2 ** 31 - 1) if b >= cur and fits(bl_member, b)]
+            if hazard == 'huge-numbers':
+                cands = [max(cur, 2 ** 40)]
+            if cands:
+                lvl['blockLength'] = rng.choice(cands)
+                hit('level.custom_blockLength')
         if depth < 2:
             for _ in range(rng.choice([0, 0, 1, 2])):
-                g = level(depth + 1)
+                g = level(depth + 1, 'gBlockLength')
                 g.update(deco({'name': name('g'), 'id': rng.choice([1, 65535]), 'dim': 'groupSizeEncoding'}, True))
                 lvl['groups'].append(g)
         for _ in range(rng.choice([0, 0, 1, 2])):
             lvl['datas'].append(deco({'name': name('d'), 'id': 3, 'type': 'varDataEncoding'}))
         return lvl
 
+    def id_for(member, cands):
+        ok = [c for c in cands if fits(member, c)]
+        if inject('header-narrow', 0.4):
+            bad = [c for c in cands if not fits(member, c)]
+            if bad:
+                return rng.choice(bad)
+        return rng.choice(ok or [1])
+
+    big = [0, 1, 127, 128, 255, 256, 32767, 32768, 65535, 65536, 2 ** 31 - 1, 2 ** 31, 2 ** 32 - 1]
     msgs = []
+    ids = set()
     for i in range(rng.randint(1, 2)):
-        m = level(0)
-        m.update(deco({'name': name('M'), 'id': rng.choice(big) if i == 0 else i}, True))
+        m = level(0, 'blockLength')
+        mid = id_for('templateId', big)
+        while mid in ids:
+            mid += 1
+        ids.add(mid)
+        m.update(deco({'name': name('M'), 'id': mid}, True))
         msgs.append(m)
-    sch = {'package': 'ns', 'id': rng.choice(big), 'version': rng.choice(big + [2 ** 40, 2 ** 64 - 1]),
+    sch = {'package': 'ns', 'id': id_for('schemaId', big), 'version': id_for('version', big + [2 ** 40, 2 ** 64 - 1]),
            'byteOrder': rng.choice(['littleEndian', 'bigEndian']), 'types': types, 'messages': msgs}
     t = text()
     if t is not None:
@@ -574,12 +669,90 @@ def literal_schema(rng):
     t = text(0.15)
     if t is not None:
         sch['semanticVersion'] = t
-    if rng.random() < 0.1:
+    if hazard == 'package-text' or rng.random() < 0.1:
         # package is free text when the schema name is given on the command line
-        sch['packageText'] = rng.choice(TEXTS)
+        sch['packageText'] = rng.choice(SPECIAL_TEXTS) if inject('package-text', 0.7) else rng.choice(BENIGN_TEXTS[:8] + ['com.example.sbe'])
         sch['schemaName'] = 'ns'
         hit('package.free_text')
     return sch, feat
+
+
+def literal_probes():
+    """one small schema per literal / include / header-type class (fixed list, part of every run)"""
+    def mini(hdr_prim=None, dim=None, var_len=None, extra_types=(), fields=(), groups=(), datas=(), **kw):
+        types = std_headers()
+        for e in types[0]['elems']:
+            if hdr_prim and e['name'] in hdr_prim:
+                e['prim'] = hdr_prim[e['name']]
+        for e in types[1]['elems']:
+            if dim and e['name'] in dim:
+                e['prim'] = dim[e['name']]
+        if var_len:
+            types[2]['elems'][0]['prim'] = var_len
+        types += list(extra_types)
+        m = {'name': 'M', 'id': kw.pop('mid', 1), 'fields': list(fields), 'groups': list(groups), 'datas': list(datas)}
+        if 'mbl' in kw:
+            m['blockLength'] = kw.pop('mbl')
+        s = {'package': 'ns', 'id': 1, 'version': 0, 'byteOrder': 'littleEndian', 'types': types, 'messages': [m]}
+        s.update(kw)
+        return s
+    g1 = {'name': 'g', 'id': 2, 'dim': 'groupSizeEncoding', 'fields': [{'name': 'x', 'id': 1, 'type': 'uint8'}], 'groups': [], 'datas': []}
+    d1 = {'name': 'd', 'id': 3, 'type': 'varDataEncoding'}
+    x8 = [{'name': 'x', 'id': 1, 'type': 'uint8'}]
+    en = {'k': 'enum', 'name': 'E', 'enc': 'uint8', 'values': [{'name': 'A', 'value': '1'}]}
+
+    def ty(**kw):
+        return dict({'k': 'type', 'name': 'F'}, **kw)
+
+    def kfield(t):
+        return dict(extra_types=[t], fields=[{'name': 'k', 'id': 1, 'type': t['name']}])
+    out = [
+        mini(hdr_prim={'blockLength': 'float'}, fields=x8), mini(hdr_prim={'templateId': 'double'}),
+        mini(hdr_prim={'blockLength': 'char'}, fields=x8), mini(hdr_prim={'blockLength': 'int8'}, fields=x8),
+        mini(dim={'blockLength': 'float'}, groups=[g1]), mini(dim={'numInGroup': 'float'}, groups=[g1]),
+        mini(dim={'numInGroup': 'char'}, groups=[g1]), mini(dim={'numInGroup': 'int64'}, groups=[g1]),
+        mini(var_len='float', datas=[d1]), mini(var_len='double', datas=[d1]), mini(var_len='char', datas=[d1]),
+        mini(mid=70000), mini(id=70000), mini(version=70000), mini(version=2 ** 64 - 1, hdr_prim={'version': 'uint64'}),
+        mini(mbl=70000), mini(hdr_prim={'blockLength': 'float'}, mbl=16777217), mini(hdr_prim={'blockLength': 'float'}, mbl=16777216),
+        mini(hdr_prim={'templateId': 'char'}, mid=128), mini(hdr_prim={'templateId': 'int8'}, mid=127),
+        mini(extra_types=[en], fields=[{'name': 'k', 'id': 1, 'type': 'uint8', 'presence': 'constant', 'valueRef': 'E.A'}]),
+        mini(extra_types=[en, ty(name='K', prim='uint8', presence='constant', valueRef='E.A')], fields=[{'name': 'k', 'id': 1, 'type': 'K'}]),
+        mini(extra_types=[en, {'k': 'composite', 'name': 'C', 'elems': [ty(name='K', prim='uint8', presence='constant', valueRef='E.A'),
+                                                                     ty(name='z', prim='uint8')]}], fields=[{'name': 'c', 'id': 1, 'type': 'C'}]),
+        mini(extra_types=[en], fields=[{'name': 'e', 'id': 1, 'type': 'E'},
+                                       {'name': 'k', 'id': 2, 'type': 'uint8', 'presence': 'constant', 'valueRef': 'E.A'}]),
+        mini(extra_types=[{'k': 'enum', 'name': 'E', 'enc': 'uint8', 'values': [{'name': 'A', 'value': '1'}, {'name': 'B', 'value': '1'}]}]),
+        mini(extra_types=[{'k': 'enum', 'name': 'E', 'enc': 'uint8', 'values': [{'name': 'A', 'value': '1'}, {'name': 'B', 'value': '01'}]}]),
+        mini(extra_types=[{'k': 'enum', 'name': 'E', 'enc': 'char', 'values': [{'name': 'A', 'value': 'x'}, {'name': 'B', 'value': 'x'}]}]),
+        mini(desc='say "hi"'), mini(desc='back\\slash'), mini(desc='trailing\\'), mini(desc='l1\nl2'), mini(desc='t\tt'),
+        mini(desc='what??/'), mini(desc='a??/b'), mini(desc='café 日本'), mini(desc='R"(x)"'), mini(semanticVersion='1"2'),
+        dict(mini(), packageText='p"q', schemaName='ns'), dict(mini(), packageText='com.example', schemaName='ns'),
+        mini(extra_types=[ty(name='K', prim='char', presence='constant', const="'"),
+                          {'k': 'composite', 'name': 'C', 'elems': [{'k': 'ref', 'name': 'r', 'type': 'K'}, ty(name='z', prim='uint8')]}]),
+        mini(**kfield(ty(name='K', prim='char', presence='constant', const="'"))),
+        mini(extra_types=[ty(name='K', prim='char', presence='constant', const="'")]),
+        mini(**kfield(ty(name='K', prim='char', presence='constant', const='\\'))),
+        mini(**kfield(ty(name='K', prim='char', presence='constant', const='"'))),
+        mini(**kfield(ty(name='K', prim='char', presence='constant', const='a"b', length=3))),
+        mini(**kfield(ty(name='K', prim='char', presence='constant', const='ab\\', length=5))),
+        mini(**kfield(ty(name='K', prim='char', presence='constant', const='ab\\', length=3))),
+        mini(extra_types=[{'k': 'enum', 'name': 'E', 'enc': 'char', 'values': [{'name': 'A', 'value': "'"}]}]),
+        mini(extra_types=[{'k': 'enum', 'name': 'E', 'enc': 'char', 'values': [{'name': 'A', 'value': '\\'}]}]),
+        mini(extra_types=[{'k': 'enum', 'name': 'E', 'enc': 'char', 'values': [{'name': 'A', 'value': '"'}]}]),
+    ]
+    for p, v in (('float', '16777217'), ('float', '16777216'), ('float', '3000000000'), ('float', '9223372036854775808'),
+                 ('float', '0.1'), ('float', '3.4028235e38'), ('float', '+1.5'), ('float', '.5'), ('float', '08'), ('float', '010'),
+                 ('float', '08.5'), ('double', '9007199254740993'), ('double', '9007199254740992'), ('float', 'NaN'),
+                 ('float', '-INF'), ('int32', '08'), ('int32', '07'), ('int32', '-09'), ('int64', '-9223372036854775808'),
+                 ('uint64', '18446744073709551615'), ('char', '-128'), ('uint8', '0255'), ('int8', '-0128')):
+        out.append(mini(extra_types=[ty(prim=p, min=v)]))
+        out.append(mini(**kfield(ty(prim=p, presence='constant', const=v))))
+    out.append(mini(extra_types=[ty(prim='float', presence='optional', min='-INF', max='INF', null='NaN')]))
+    out.append(mini(extra_types=[{'k': 'composite', 'name': 'C', 'elems': [ty(name='z', prim='uint8', offset=2 ** 63)]}],
+                    fields=[{'name': 'c', 'id': 1, 'type': 'C'}]))
+    out.append(mini(fields=[{'name': 'x', 'id': 1, 'type': 'uint8', 'offset': 2 ** 63}]))
+    out.append(mini(hdr_prim={'blockLength': 'uint64'}, fields=[{'name': 'x', 'id': 1, 'type': 'uint8', 'offset': 2 ** 63}]))
+    return out
 
 
 # ------------------------------------------------------------------ rendering (XML, S-expression)
